@@ -1,5 +1,5 @@
 PROPERTY = {'id': 'C01',
- 'extra': ['bounded.c01_chunks.run'],
+ 'extra': ['bounded.c01_chunks.run', 'bounded.run_corpus.run'],
  'contract_modules': ['doctest_example', 'util_stream', 'checker', 'doctest_part', 'runner', 'parser'],
  'functions': ['xdoctest.doctest_example:DocTest.run',
                'xdoctest.parser:DoctestParser._package_chunk#slices',
@@ -41,7 +41,8 @@ PROPERTY = {'id': 'C01',
                    'at line 0 and end at its end (loop clauses for the slices made in the loops, exit facts for the one or two made after '
                    'them), so every statement line is in exactly one part, in order; a directive forces a break before its statement, an '
                    'inline one also after it; slice_example: a part executes / shows exactly the lines [s1, s2) and starts at lineno + s1'],
-             'B': ['the real _locate_ps1_linenos / _package_chunk on every sequence of up to 3 (thorough: 4) statement shapes (decorators, PS1/PS2 '
+             'B': ['the real parser and DocTest.run on every sequence of 1..2 (thorough 3) statement templates plus random longer ones, each run twice, against an oracle written from the property statements: executed statements and their order, verdict, recorded exception and failing part, logged output, renderable report, stdout restored, second run identical, module global untouched (bounded/run_corpus.py)',
+                   'the real _locate_ps1_linenos / _package_chunk on every sequence of up to 3 (thorough: 4) statement shapes (decorators, PS1/PS2 '
                    'continuation lines, multi-line strings, comments, block and inline directives) x want / no want: partition, offsets, no '
                    'statement cut, directive scope, want on the last part only, statement starts (bounded/c01_chunks.py)'],
              'T': ['compile / exec / eval / asyncio.run as oracles (pyvc/models_run.py): return a value or raise any class, write to the current '
